@@ -1,6 +1,7 @@
 package main
 
 import (
+	"go/types"
 	"fmt"
 	"go/constant"
 	"go/token"
@@ -29,7 +30,7 @@ func checkC20(c *Ctx) {
 		c20Budget(c, p, copies)
 		c20Units(c, p)
 	}
-	c.Floor["R20.1"] = 30
+	c.Floor["R20.1"] = 12
 	c.Floor["R20.2"] = 7
 	c.Floor["R20.3"] = 7
 }
@@ -222,10 +223,10 @@ func c20Units(c *Ctx, p *Prog) {
 		r.Unk("R20.2", "anchors", "-", "shortDurFormat/unitMap not found")
 		return
 	}
-	units := map[string]*big.Int{}
+	units2 := map[string]*big.Int{}
 	for _, kv := range um {
 		b, _ := new(big.Int).SetString(kv.V.ExactString(), 10)
-		units[constant.StringVal(kv.K)] = b
+		units2[constant.StringVal(kv.K)] = b
 	}
 	fmtInt := p.Func(p.Times, "fmtInt")
 	n := 0
@@ -299,7 +300,7 @@ func c20Units(c *Ctx, p *Prog) {
 		div := divisorOfTerm(te.eval(x.Common().Args[1], site.Ctx))
 		key := "unit:" + unit
 		n++
-		mult, in := units[unit]
+		mult, in := units2[unit]
 		switch {
 		case !in:
 			r.Bad("R20.2", key, p.Pos(instrPos(x)), "the formatter writes the unit %q, which the parser's unitMap does not know: the text cannot be parsed back", unit)
@@ -309,6 +310,89 @@ func c20Units(c *Ctx, p *Prog) {
 			r.Bad("R20.2", key, p.Pos(instrPos(x)), "the %q component is computed with divisor %s but the parser multiplies %q by %s", unit, div, unit, mult)
 		default:
 			r.Ok("R20.2", key, p.Pos(instrPos(x)), "component divisor %s = unitMap[%q]", div, unit)
+		}
+	}
+	// components kept in a local table {unit, value} that a loop walks (the seven copies folded into one loop):
+	// element k pairs the unit text stored into it with the value stored into it
+	if n < 7 {
+		for g := range regionOf(p, sdf, func(f *ssa.Function) bool { return f.Pkg == p.Times }) {
+			for _, b := range g.Blocks {
+				for _, in := range b.Instrs {
+					al, ok := in.(*ssa.Alloc)
+					if !ok {
+						continue
+					}
+					pt, ok := al.Type().Underlying().(*types.Pointer)
+					if !ok {
+						continue
+					}
+					arr, ok := pt.Elem().Underlying().(*types.Array)
+					if !ok {
+						continue
+					}
+					st, ok := arr.Elem().Underlying().(*types.Struct)
+					if !ok || st.NumFields() != 2 {
+						continue
+					}
+					compact := g != sdf
+					for _, gd := range guardsOf(b) {
+						cond, neg := normCond(gd.If.Cond)
+						if cond == ssa.Value(fracParam) && ((gd.Succ == 1) != neg) {
+							compact = true
+						}
+					}
+					if !compact || !usedInLoop(al) {
+						continue
+					}
+					units := map[int64]string{}
+					vals := map[int64]ssa.Value{}
+					for _, ref := range *al.Referrers() {
+						ia, ok := ref.(*ssa.IndexAddr)
+						if !ok {
+							continue
+						}
+						k, isC := constInt(ia.Index)
+						if !isC {
+							continue
+						}
+						for _, r2 := range *ia.Referrers() {
+							fa, ok := r2.(*ssa.FieldAddr)
+							if !ok {
+								continue
+							}
+							for _, r3 := range *fa.Referrers() {
+								if stv, ok := r3.(*ssa.Store); ok && stv.Addr == ssa.Value(fa) {
+									if us, isS := constString(stv.Val); isS {
+										units[k] = us
+									} else {
+										vals[k] = stv.Val
+									}
+								}
+							}
+						}
+					}
+					for k := int64(0); k < arr.Len(); k++ {
+						unit, v := units[k], vals[k]
+						if unit == "" || v == nil {
+							continue
+						}
+						div := divisorOfTerm(te.eval(v, nil))
+						key := "unit:" + unit
+						n++
+						mult, in := units2[unit]
+						switch {
+						case !in:
+							r.Bad("R20.2", key, p.Pos(instrPos(al)), "the formatter writes the unit %q, which the parser's unitMap does not know: the text cannot be parsed back", unit)
+						case div == nil:
+							r.Unk("R20.2", key, p.Pos(instrPos(al)), "the divisor of the %q component could not be determined", unit)
+						case div.Cmp(mult) != 0:
+							r.Bad("R20.2", key, p.Pos(instrPos(al)), "the %q component is computed with divisor %s but the parser multiplies %q by %s", unit, div, unit, mult)
+						default:
+							r.Ok("R20.2", key, p.Pos(instrPos(al)), "component divisor %s = unitMap[%q] (table element %d)", div, unit, k)
+						}
+					}
+				}
+			}
 		}
 	}
 	if n < 7 {
@@ -389,4 +473,26 @@ func divisorOfTerm(t *Term) *big.Int {
 		out = d
 	}
 	return out
+}
+
+// regionOf: fn and the functions it reaches statically for which follow holds.
+func regionOf(p *Prog, fn *ssa.Function, follow func(*ssa.Function) bool) map[*ssa.Function]bool {
+	return staticReach([]*ssa.Function{fn}, func(f *ssa.Function) bool { return f != fn && !follow(f) })
+}
+
+// usedInLoop: some load of the array (or of one of its elements) happens inside a loop.
+func usedInLoop(al *ssa.Alloc) bool {
+	for _, ref := range *al.Referrers() {
+		if in, ok := ref.(ssa.Instruction); ok && in.Block() != nil && inLoop(in.Block()) {
+			return true
+		}
+		if u, ok := ref.(*ssa.UnOp); ok {
+			for _, r2 := range *u.Referrers() {
+				if in, ok := r2.(ssa.Instruction); ok && in.Block() != nil && inLoop(in.Block()) {
+					return true
+				}
+			}
+		}
+	}
+	return false
 }
